@@ -17,17 +17,18 @@ InSupport(pr, x) ==
     CASE pr.fam = "uniform"      -> RLe(pr.p1, x) /\ RLe(x, pr.p2)
       [] pr.fam = "gaussian"     -> TRUE
       [] pr.fam = "exponential"  -> RLe(Zero, x)
-      [] pr.fam = "gamma"        -> RLt(Zero, x)
-      [] pr.fam = "beta"         -> RLt(Zero, x) /\ RLt(x, One)
+      \* closed supports where the density at the end point is finite and positive (shape 1), as in the
+      \* standard definitions (gamma(1, b) is the exponential; beta(1, b) has density b at 0)
+      [] pr.fam = "gamma"        -> RLt(Zero, x) \/ (x = Zero /\ pr.p1 = One)
+      [] pr.fam = "beta"         -> (RLt(Zero, x) /\ RLt(x, One)) \/ (x = Zero /\ pr.p1 = One) \/ (x = One /\ pr.p2 = One)
       [] pr.fam = "log-uniform"  -> RLe(pr.p1, x) /\ RLe(x, pr.p2)
       [] pr.fam = "log-gaussian" -> RLt(Zero, x)
 
 \* boundary points whose membership the property leaves open (density 0 or a closed/open convention)
-OnBoundary(pr, x) ==
-    CASE pr.fam = "gamma" -> x = Zero
-      [] pr.fam = "beta" -> x = Zero \/ x = One
-      [] pr.fam = "log-gaussian" -> x = Zero
-      [] OTHER -> FALSE
+\* At every other end point (gamma with shape > 1 at 0, beta with a > 1 at 0 or b > 1 at 1, log-gaussian at 0) the
+\* density is 0: "log-density minus infinity" and "rejected" are the same observable (non-finite), so those points are
+\* simply outside InSupport.  No point is left unjudged.
+OnBoundary(pr, x) == FALSE
 
 Sq(q) == RMul(q, q)
 Half == R(1, 2)
